@@ -152,9 +152,21 @@ func hexList(items []string) string {
 
 func genDocField(r *core.Rand, s fieldSpec) genField {
 	g := genField{Spec: s}
+	// archive-sized fields: a Depends with hundreds of relations, a Binary list with hundreds
+	// of names: physical lines longer than any reader's internal buffer (4 KiB, 64 KiB)
+	big := r.Chance(1, 50)
+	count := func(lo, hi int) int {
+		if big {
+			return r.Range(300, 900)
+		}
+		return r.Range(lo, hi)
+	}
 	switch s.Shape {
 	case shScalar, shVerbatim:
 		v := r.Pick([]string{"foo", "3.0 (quilt)", "optional", "https://example.org/x?y=1", "4.6.2", "Jane Doe <jane@example.org>", "a, b", "unstable", "low", "main/f/foo/foo_1.0.deb", "d41d8cd98f00b204e9800998ecf8427e", "same"})
+		if big {
+			v = "https://example.org/" + strings.Repeat(r.Pick([]string{"x", "seg/", "a:b ", "q=1&"}), r.Range(1000, 2500)) + "end"
+		}
 		g.Text, g.Expect = " "+v, core.Hex(v)
 	case shInt:
 		n := r.Intn(100000)
@@ -186,7 +198,7 @@ func genDocField(r *core.Rand, s fieldSpec) genField {
 		g.Text, g.Expect = " "+n, archTriple(n)
 	case shArchList:
 		var items, exp []string
-		for k := r.Range(1, 4); k > 0; k-- {
+		for k := count(1, 4); k > 0; k-- {
 			n := r.Pick(append(archNames, "source"))
 			items = append(items, n)
 			exp = append(exp, archTriple(n))
@@ -194,6 +206,11 @@ func genDocField(r *core.Rand, s fieldSpec) genField {
 		g.Text, g.Expect = fold(items, "", r), "["+strings.Join(exp, ";")+"]"
 	case shDep:
 		ast := genDepAST(r)
+		if big {
+			for k := r.Range(40, 200); k > 0; k-- {
+				ast = append(ast, genDepAST(r)...)
+			}
+		}
 		if r.Bool() {
 			g.Text = " " + renderDep(r, ast, 1)
 		} else {
@@ -207,7 +224,7 @@ func genDocField(r *core.Rand, s fieldSpec) genField {
 		g.Expect = astDump(ast)
 	case shCommaList:
 		var items []string
-		for k := r.Range(1, 4); k > 0; k-- {
+		for k := count(1, 4); k > 0; k-- {
 			if s.Deb == "Uploaders" {
 				items = append(items, r.Pick(people))
 			} else if s.Deb == "Tag" {
@@ -219,7 +236,7 @@ func genDocField(r *core.Rand, s fieldSpec) genField {
 		g.Text, g.Expect = fold(items, ",", r), hexList(items)
 	case shSpaceList:
 		var items []string
-		for k := r.Range(1, 5); k > 0; k-- {
+		for k := count(1, 5); k > 0; k-- {
 			items = append(items, r.Pick([]string{"foo", "libfoo1", "libfoo-dev", "123456", "987", "abcdef0123"}))
 		}
 		g.Text, g.Expect = fold(items, "", r), hexList(items)
@@ -245,6 +262,9 @@ func genDocField(r *core.Rand, s fieldSpec) genField {
 		var conts []string
 		for k := r.Intn(4); k > 0; k-- {
 			conts = append(conts, r.Pick([]string{" long text", " .", "   * change one", " more"}))
+		}
+		if big {
+			conts = append(conts, "   * closes: "+strings.Repeat(r.Pick([]string{"#123456, ", "x"}), r.Range(600, 1500))+"end")
 		}
 		val := first
 		if len(conts) > 0 {
